@@ -235,8 +235,21 @@ class Family:
             load_node = True
             lat_exec = lat
             lat = lat + self.load_latency
+        # address as a linear form for the store->load reference (mc/ref/dg.py:memdep_edges)
+        rb = res_of(isa, base)
+        changes, post_changes = {}, {}
+        if mode == "pre":
+            ref = RD.MemRef(rb, None, 1, 0, text=m if is_store else None)
+            changes = {rb: ("add", disp)}
+        elif mode == "post":
+            ref = RD.MemRef(rb, None, 1, 0, text=m if is_store else None)
+            post_changes = {rb: ("add", disp)}
+        else:
+            ref = RD.MemRef(rb, None, 1, disp, text=m if is_store else None)
         return RD.RI(text, reads, writes, wb=wb, lat=lat, lat_exec=lat_exec,
-                     load_node=load_node, tag=mn)
+                     load_node=load_node, tag=mn, loads=[] if is_store else [ref],
+                     stores=[ref] if is_store else [], changes=changes,
+                     post_changes=post_changes)
 
 
 # ---------------------------------------------------------------------------------------
